@@ -79,9 +79,12 @@ def build(ctx, tier="quick", constraints=True, set_null=True, normalize_names=Fa
     heads = []
     for st in (a, a2):
         heads.append(name_edge(st, tname, Tag("head", False, "name")))
-        d = name_edge(st, sname, Tag("head", False, "schema"))
-        d = s.edge(d, P["."], Tag("head", False))
+        d0 = name_edge(st, sname, Tag("head", False, "schema"))
+        d = s.edge(d0, P["."], Tag("head", False))
         heads.append(name_edge(d, tname, Tag("head", False, "name")))
+        if constraints is False:
+            # db..table: the two dots are one DOT token; the statement must not make an action raise
+            s.e[d0].append((P[".."], Tag("head", False, "dots"), d))
     lp = s.new()
     for h in heads:
         s.edge(h, P["("], Tag("lp", True), lp)
